@@ -1,2 +1,22 @@
-"""Bug-compatible models for the known findings listed in known_findings.json."""
-from .findings import classifier  # noqa: F401
+"""Bug-compatible classifiers for the known findings listed in known_findings.json.
+
+A witness is attributed to a finding only if it lies in the finding's input class AND the
+library's output equals the output of a model of the defective mechanism."""
+from .findings import classifier
+
+
+@classifier("c05_greedy_backtrack_leaves_neg_chain")
+def c05_greedy(w):
+    if w.get("kind") not in ("invalid-path", "path-cost-differs-from-distance"):
+        return False
+    if not w.get("psi_end_active"):
+        return False
+    st = w.get("settings") or {}
+    psi = st.get("psi")
+    if not psi:
+        return False
+    if w.get("kind") == "invalid-path" and "does not end in the relaxed corner" not in (w.get("reason") or ""):
+        return False
+    models = w.get("greedy_model_paths") or []
+    got = [list(p) for p in (w.get("path") or [])]
+    return got in models
